@@ -85,6 +85,7 @@ def run(prog, tier, extra=None):
     R7 = res.rule("C01.utxo-lookup", "validate_against_utxoset skips the per-input ledger lookup only for the Fee transaction", floor=1)
     R6 = res.rule("C01.tx-dup", "Transaction::validate accepts a non-privileged transaction only after a test that can tell a repeated input key", floor=1)
     R10 = res.rule("C01.input-owner", "Transaction::validate accepts a user transaction only after testing that every value-carrying input carries the key the signature was verified against", floor=1)
+    R11 = res.rule("C01.input-window", "Block::validate accepts a transaction only after testing that no value-carrying input was created before the block's retention window (own id - genesis_period)", floor=1)
     R3 = res.rule("C01.signature", "Transaction::validate accept paths pass verify_signature(hash_for_signature, signature, from[0].public_key)", floor=1)
 
     units = prog.units
@@ -224,6 +225,7 @@ def run(prog, tier, extra=None):
         return any(b.tyix(c)["s"] == "[u8; 59]" or "<[u8; 59]" in b.tyix(c)["s"] for c in t.get("cargs", []))
     # the sweep is wherever Block::validate (its body or a closure inside it, e.g. the one handed to all()) fills that table
     sweep_bodies = [b for b in prog.all_bodies() if (b.path == BV or b.path.startswith(BV + "::{closure")) and not b.is_promoted]
+    pending_bulk = []
     n_ins = 0
     sweep = None
     for b in sweep_bodies:
@@ -243,8 +245,21 @@ def run(prog, tier, extra=None):
             n_ins += 1
             key = "C01.dup-scan|%s|%s|%d" % (b.path, last, n_ins)
             if last in ("extend", "append"):
-                res.add(Finding(R4, key, "the per-block spent-output map is filled in bulk (%s): an output listed twice inside one transaction is never compared with itself, "
-                                "so it is counted twice as input" % last, b.loc(bb)))
+                # bulk fill after all keys of the transaction were looked up: repeats across transactions are still caught; a repeat inside
+                # one transaction is not - that case belongs to Transaction::validate's own duplicate test (C01.tx-dup), so the bulk form is
+                # accepted exactly when a membership test over the map dominates it and C01.tx-dup holds (resolved below)
+                probes = set()
+                for pb, pt in b.calls():
+                    if (call_name(pt) or "").rsplit("::", 1)[-1] in ("find", "any", "all", "position"):
+                        from .c14 import closure_args as _cla
+                        for cb_ in _cla(b, pb, prog):
+                            if any((call_name(ct) or "").rsplit("::", 1)[-1] in ("contains_key", "contains", "get") for _, ct in cb_.calls()):
+                                probes.add(pb)
+                if any(b.dominates(pb, bb) for pb in probes):
+                    pending_bulk.append((key, last, b, bb))
+                else:
+                    res.add(Finding(R4, key, "the per-block spent-output map is filled in bulk (%s) without first looking the keys up: an output spent by an earlier transaction "
+                                    "of the block is not noticed" % last, b.loc(bb)))
                 continue
             if last == "insert":
                 k_expr = show(chb.origin(t["args"][1]))
@@ -425,6 +440,52 @@ def run(prog, tier, extra=None):
                             if g10 else "the outcome of the input-owner test of Transaction::validate is not branched on", tv.loc(sorted(owner_sites)[0])))
         else:
             res.sample({"rule": R10, "test": [tv.loc(x) for x in sorted(owner_sites)], "foreign_input_edges": len(foreign_edges), "verdict": "must-pass holds and a foreign input rejects"})
+
+    # R11: "is still inside the retention window". Block N sweeps block N - genesis_period - 1: its unspent outputs are rebroadcast (the
+    # ATR input consumes the old output) or, when too small to pay the fee, collected into the fees with NO transaction consuming them -
+    # the old key stays `true` in the UTXO set until the block is purged a whole period later. The ledger lookup therefore does not
+    # enforce expiry; the per-transaction sweep of Block::validate needs its own test of input.block_id against the window.
+    wtests = set()       # workspace bodies (roots) that order-compare an input's block_id
+    for b_ in prog.all_bodies():
+        if b_.is_promoted or "::tests::" in b_.path or not b_.path.startswith(CORE + "consensus::"):
+            continue
+        chw_ = None
+        for blk in b_.blocks:
+            for st in blk["s"]:
+                if st[0] == "=" and st[2][0] == "bin" and st[2][1] in ("Lt", "Le", "Gt", "Ge"):
+                    chw_ = chw_ or Chaser(b_)
+                    e_ = chw_.rvalue(st[2], 0)
+                    if has_field(e_, "slip::Slip", "block_id") and not has_field(e_, "wallet::", "slips"):
+                        wtests.add(b_.path)
+    from ._helpers import root as _root11
+    wroots = {_root11(p_) for p_ in wtests if "consensus::wallet::" not in p_}
+    sweep11 = [b_ for p_, b_ in prog.bodies.items() if p_.startswith(BV + "::{closure") and not b_.is_promoted and b_.ty(0)["s"] == "bool"
+               and any((call_name(t_) or "").endswith("Transaction::validate") for _, t_ in b_.calls())]
+    res.instance(R11)
+    if not sweep11:
+        res.not_decided.append("C01.input-window: the per-transaction sweep closure of Block::validate was not found")
+    else:
+        sw = sweep11[0]
+        sites11 = {bb for bb, t_ in sw.calls() if _root11(t_.get("res") or t_.get("callee") or "") in wroots}
+        if sw.path in wtests:
+            sites11 |= {bb for bb, blk in enumerate(sw.blocks) for st in blk["s"] if st[0] == "=" and st[2][0] == "bin" and st[2][1] in ("Lt", "Le", "Gt", "Ge")
+                        and has_field(Chaser(sw).rvalue(st[2], 0), "slip::Slip", "block_id")}
+        if not sites11:
+            res.add(Finding(R11, "C01.input-window|no-test", "Block::validate never compares an input's block_id with the retention window: an output that block N - genesis_period - 1 "
+                            "left behind as 'collected as fees' (too small to rebroadcast) is still `true` in the UTXO set and can be spent again for a whole period", sw.loc(0)))
+        else:
+            f11 = None if 0 in sites11 else Explorer(sw).explore(0, blocked=sites11, accept=gate.make_accept(sw, return_true=True))
+            if f11:
+                kind, path = sorted(f11.items())[0]
+                res.add(Finding(R11, "C01.input-window|bypass", "the transaction sweep of Block::validate can accept a transaction without the retention-window test of its inputs",
+                                sw.loc(path[-1]), {"path": describe_path(sw, path)}))
+            else:
+                gated = all(not gate.check_gate(sw, s_, gate.make_accept(sw, return_true=True), units)[0]
+                            for s_ in gate.verdict_sites(sw, lambda n: _root11(n) in wroots))
+                if gated:
+                    res.sample({"rule": R11, "tests": [sw.loc(x) for x in sorted(sites11)], "window_test_bodies": sorted(x.replace(CORE, "") for x in wroots), "verdict": "must-pass holds and a false verdict rejects"})
+                else:
+                    res.add(Finding(R11, "C01.input-window|ungated", "the transaction sweep of Block::validate can accept a transaction although the retention-window test said no", sw.loc(sorted(sites11)[0])))
 
     # R6: "nor twice inside the transaction": the pool admits a transaction on Transaction::validate's word alone (its own reservation
     # test looks every key up before it inserts any), so validate must contain a test that can distinguish a repeated input key: a
@@ -627,6 +688,12 @@ def run(prog, tier, extra=None):
             else:
                 res.sample({"rule": R9, "lookups": [isu.loc(x) for x in sorted(lookups)], "absent_edges": len(absent), "verdict": "true only after the lookup; an absent key leads to false"})
 
+    for key, last, b_, bb_ in pending_bulk:
+        if any(f.rule == R6 for f in res.findings):
+            res.add(Finding(R4, key, "the per-block spent-output map is filled in bulk (%s) and Transaction::validate has no sound duplicate-input test: an output listed twice inside "
+                            "one transaction is never compared with itself, so it is counted twice as input" % last, b_.loc(bb_)))
+        else:
+            res.sample({"rule": R4, "site": b_.loc(bb_), "verdict": "bulk fill after a lookup of every key; repeats inside one transaction are refused by Transaction::validate (C01.tx-dup)"})
     # the ledger C01's verdicts are evaluated against is the one wind/unwind maintain, and the only un-signed spends the
     # validator admits are the rebroadcasts it re-derives: both mechanisms are decided by the C03 / C13 rules, cross-listed here
     from ._include import include
